@@ -351,7 +351,8 @@ def _has_sym(x):
 
 def sym_hash(x):
     if isinstance(x, tuple):
-        if _has_sym(x):
+        if _has_sym(x) or active():
+            # always structural while the engine runs: a concrete hash and a structural one are not comparable
             return SymHash(x)
         return builtins.hash(x)
     if is_sym(x):
